@@ -306,11 +306,11 @@ def rstep (q : Quirks) (cfgs : Nat → Cfg) (w : RWorld) (c : Nat) (op : Op) : R
     (setCl w c (remember (pk cfg.pre k) x), .flag (aGet w.srv (pk cfg.pre k)).isSome)
   | .iter => (w, .keys (scanKeys cfg.pre w.srv))
   | .len => (w, .count (scanKeys cfg.pre w.srv).length)
-  | .ttl k n =>
+  | .ttl k n =>          -- answers with the TTL the record has afterwards (what the harness observes)
     if (aGet w.srv (pk cfg.pre k)).isSome then
-      if n = 0 then (srvDel w (pk cfg.pre k), .done)
-      else (touch { w with ttl := aSet w.ttl (pk cfg.pre k) n } (pk cfg.pre k), .done)
-    else (w, .done)
+      if n = 0 then (srvDel w (pk cfg.pre k), .ttlv none)
+      else (touch { w with ttl := aSet w.ttl (pk cfg.pre k) n } (pk cfg.pre k), .ttlv (some (some n)))
+    else (w, .ttlv none)
   | .gttl k =>
     (setCl w c (remember (pk cfg.pre k) x),
      .ttlv (if (aGet w.srv (pk cfg.pre k)).isSome then some (aGet w.ttl (pk cfg.pre k)) else none))
